@@ -421,6 +421,9 @@ COMMENT_TEXTS = ["note", "march 2020", "jan", "5 + 3", "* 2", "10 usd to try", "
                  "of what", "[NUMBER:3]", "{NUMBER:n}", "1k", "0x10", "GMT+3", "kere 2", "mart",
                  # comments whose text has multi-byte characters (the comment span is a BYTE span) and that end in
                  # something evaluable: a number, an operator with operand, a percentage, a conversion
+                 # a comment that itself contains a '#', with a month name in front of it (the month parser scans the line up
+                 # to the FIRST '#')
+                 "paid in june # ref 7", "due in june = 30 # confirmed", "rate of mart = 1 # old", "# june # 5",
                  "ödeme 3", "😀 x2", "ücret + 7", "½ * 2", "şubat ığüçö 10%", "τιμή 5", "€€€€ to try", "日本語 - 4", "ığüşöç 1k"]
 
 
@@ -606,9 +609,25 @@ PINNED = [
 ]
 
 
+def api_rule_cases(rng):
+    """a custom rule whose pattern has capitalised literal words: the words of the line match in any letter case"""
+    out = []
+    rule = {"op": "add_rule", "lang": "en", "patterns": ["Price Of {TEXT:coin}", "{NUMBER:n} Cups Of {TEXT:what}"], "name": "price",
+            "kind": "const_number", "k": str(bits(1000.0)), "cur": ""}
+    for orig, variants in (("Price Of btc", ["price of btc", "PRICE OF btc", "Price of btc", "pRiCe oF btc"]),
+                           ("3 Cups Of tea + 1", ["3 cups of tea + 1", "3 CUPS OF tea + 1", "3 Cups of tea + 1"]),
+                           ("price of btc * 2", ["Price Of btc * 2", "PRICE of btc * 2"])):
+        ops = [rule, {"op": "exec", "lang": "en", "text": orig}] + [{"op": "exec", "lang": "en", "text": v} for v in variants]
+        out.append({"ops": ops, "meta": {"kind": "api-rule-words", "lang": "en", "nlines": 1, "pre": 1,
+                                          "rewrites": [{"kinds": ["case"], "classes": ["kw"]} for _ in variants],
+                                          "line_classes": [["kw"]], "touching": [False], "minus_touch": [False],
+                                          "sign_touch_conv": [False]}})
+    return out
+
+
 def generate(rng, tier):
     n = 640 if tier == "quick" else 6000
-    cases = []
+    cases = api_rule_cases(rng)
     for kind, lang, lines in PINNED:
         for k in range(6 if kind == "var-reassign" else 1):
             extra = []
@@ -658,8 +677,19 @@ def value_of(line):
     return (k, json.dumps(v, sort_keys=True, ensure_ascii=False))
 
 
+def strip_pre(c, rec):
+    """a case may start with configuration operations (meta["pre"] of them): the original text and its variants follow"""
+    k = c["meta"].get("pre", 0)
+    if not k:
+        return c, rec
+    c2 = dict(c, ops=c["ops"][k:])
+    rec2 = rec if (rec is None or "obs" not in rec) else dict(rec, obs=rec["obs"][k:])
+    return c2, rec2
+
+
 def failures(c, rec):
     """[(variant index or None, message, line index or None)]"""
+    c, rec = strip_pre(c, rec)
     return [(f[0], f[1], f[2] if len(f) > 2 else None) for f in failures0(c, rec)]
 
 
@@ -713,6 +743,7 @@ def failures0(c, rec):
 
 
 def nontrivial(c, rec):
+    c, rec = strip_pre(c, rec)
     ob = exec_lines(rec, len(c["ops"]))
     if ob is None or ob[0] is None:
         return False
